@@ -148,3 +148,97 @@ def loop_carried_into_table(repo):
 def _reads_own(st, v):
     val = getattr(st, 'value', None)
     return val is not None and any(isinstance(x, ast.Name) and x.id == v for x in ast.walk(val))
+
+
+def stale_measurement_fields(repo):
+    """Fields of KexDH that the measurement getters read and that can survive from one exchange to the next.
+
+    One key-exchange object is reused for every probed host-key type (send_init(); recv_reply()).  A field read by
+    get_hostkey_size / get_ca_type / get_ca_size / get_hostkey_type is fresh for an exchange when it is assigned on every path
+    of recv_reply before any normal return (must-assignment on the CFG; a call of another method of the class on the same
+    receiver counts for the fields that method assigns on all of its paths), or when EVERY implementation of send_init in the
+    class hierarchy (overrides included) assigns it that way.  Returns (fields read by the getters, [(field, reason)])."""
+    from sa.cfg import CFG
+    kcls = repo.cls('kexdh', 'KexDH')
+    methods = {f.name: f for f in kcls.body if isinstance(f, ast.FunctionDef)}
+    getters = [m for m in ('get_hostkey_size', 'get_ca_type', 'get_ca_size', 'get_hostkey_type') if m in methods]
+    if len(getters) < 3:
+        raise AnalysisError('measurement getters of KexDH not found')
+    fields = set()
+    for g in getters:
+        for n in ast.walk(methods[g]):
+            if isinstance(n, ast.Attribute) and isinstance(n.value, ast.Name) and n.value.id == 'self' and isinstance(n.ctx, ast.Load) and n.attr.startswith('__') and not isinstance(getattr(n, '_parent', None), ast.Call):
+                fields.add(n.attr)
+            elif isinstance(n, ast.Attribute) and isinstance(n.value, ast.Name) and n.value.id == 'self' and isinstance(n.ctx, ast.Load) and n.attr.startswith('__') and isinstance(n._parent, ast.Call) and n._parent.func is not n:
+                fields.add(n.attr)
+    memo = {}
+
+    def must_assign(func, cls_methods, depth=0):
+        """fields assigned on every path from entry to a normal return of func"""
+        key = id(func)
+        if key in memo:
+            return memo[key]
+        memo[key] = set()
+        cfg = CFG(func, exc_edges=False)
+
+        def gen(node):
+            out = set()
+            st = node.stmt
+            if st is None or node.kind not in ('stmt', 'return'):
+                return out
+            for x in ast.walk(st):
+                if isinstance(x, ast.Attribute) and isinstance(x.ctx, ast.Store) and isinstance(x.value, ast.Name) and x.value.id == 'self':
+                    out.add(x.attr)
+                if isinstance(x, ast.Call) and isinstance(x.func, ast.Attribute) and depth < 3:
+                    recv = x.func.value
+                    callee = None
+                    if isinstance(recv, ast.Name) and recv.id == 'self' and x.func.attr in cls_methods:
+                        callee = cls_methods[x.func.attr]
+                    elif isinstance(recv, ast.Call) and isinstance(recv.func, ast.Name) and recv.func.id == 'super' and x.func.attr in methods:
+                        callee = methods[x.func.attr]
+                    if callee is not None and callee is not func:
+                        out |= must_assign(callee, cls_methods, depth + 1)
+            return out
+        # forward must-analysis: IN[n] = intersection over preds; start with TOP for all but entry
+        TOP = None
+        state = {n: TOP for n in cfg.nodes}
+        state[cfg.entry] = set()
+        changed = True
+        while changed:
+            changed = False
+            for n in cfg.nodes:
+                if n is cfg.entry:
+                    continue
+                ins = [state[p] | gen(p) for p in n.pred if state[p] is not TOP]
+                if not ins:
+                    continue
+                new = set.intersection(*ins) if ins else set()
+                if state[n] is TOP or new != state[n]:
+                    state[n] = new
+                    changed = True
+        rets = [n for n in cfg.nodes if n.kind == 'return'] + [cfg.exit]
+        outs = [state[n] | gen(n) for n in rets if state[n] is not TOP and (n.kind == 'return' or n is cfg.exit)]
+        # the synthetic exit collects fall-through and returns; use explicit returns plus fall-through predecessors
+        res = set.intersection(*outs) if outs else set()
+        memo[key] = res
+        return res
+    rr = methods.get('recv_reply')
+    if rr is None:
+        raise AnalysisError('KexDH.recv_reply not found')
+    fresh_in_reply = must_assign(rr, methods)
+    # every implementation of send_init
+    impls = []
+    for c in [n for n in ast.walk(repo.mod('kexdh').tree) if isinstance(n, ast.ClassDef)]:
+        for f in c.body:
+            if isinstance(f, ast.FunctionDef) and f.name == 'send_init':
+                cm = dict(methods)
+                cm.update({g.name: g for g in c.body if isinstance(g, ast.FunctionDef)})
+                impls.append((c.name, f, cm))
+    stale = []
+    for fld in sorted(fields):
+        if fld in fresh_in_reply:
+            continue
+        missing = [cn for cn, f, cm in impls if fld not in must_assign(f, cm)]
+        if missing or not impls:
+            stale.append((fld, 'not assigned on every path of recv_reply, nor by send_init of %s' % ', '.join(missing[:4]) if impls else 'not assigned on every path of recv_reply'))
+    return rr, sorted(fields), stale
